@@ -28,6 +28,10 @@ fn main() {
         }
         return;
     }
+    if args[1] == "gen-epmates" {
+        engine::gen_ep_mates(args[2].parse().unwrap(), args[3].parse().unwrap(), &args[4]);
+        return;
+    }
     if args[1] == "gen-materoots" {
         engine::gen_mate_roots(args[2].parse().unwrap(), args[3].parse().unwrap(), &args[4]);
         return;
@@ -72,6 +76,7 @@ fn main() {
         "glue17" => glue::glue17(&mut out, thorough),
         "bookgen" => tables::bookgen(&mut out, thorough),
         "magicgen" => tables::magicgen(&mut out, thorough),
+        "bot11" => engine::bot11(&mut out, thorough, args.get(5).map(|s| s.as_str()).unwrap_or("")),
         "c15" => engine::c15(&mut out, thorough, args.get(5).map(|s| s.as_str()).unwrap_or("")),
         _ => {
             eprintln!("unknown stream {stream}");
